@@ -79,6 +79,11 @@ impl<'a> Cell<'a> {
         if ok {
             self.acc.count("cells_ok");
             self.acc.count(&format!("pair:{}->{}", self.source, target));
+            if self.acc.samples.len() < 5 && self.source != target && bytes.len() > 3 && bytes.len() < 40 && self.acc.evaluations % 97 == 0 {
+                self.acc.sample(
+                    J::obj().with("element", J::s(self.elem)).with("written_by", J::s(self.source)).with("read_as", J::s(target)).with("bytes", J::s(hex(bytes))).with("elements", J::s(want.render(120))),
+                );
+            }
         } else {
             self.acc.violation(
                 format!("C12|{}|{}->{}|{}", self.elem, self.source, target, if got.is_ok() { "other_elements".to_string() } else { got.class() }),
